@@ -44,6 +44,7 @@ type Cfg struct {
 	ElementChains bool // with NoChains: components may still be references to whole single-element files
 	NoExtension   bool // documents are named without a file extension
 	RelativeTwins bool // twin element files also when the root location is relative (C16 open finding)
+	NullEntries   bool // a null entry in encoding maps, sorted before the entry with references (the only map whose null entries stay nil after parsing)
 }
 
 type gen struct {
@@ -117,6 +118,13 @@ func relPath(fromDir, to string) string {
 	}
 	parts = append(parts, ts[i:]...)
 	return strings.Join(parts, "/")
+}
+
+func b2i(b bool) int {
+	if b {
+		return 1
+	}
+	return 0
 }
 
 func esc(tok string) string {
@@ -503,8 +511,13 @@ func (g *gen) objectN(kind, file string, depth int) M {
 			mt["examples"] = M{"e": g.slot("example", file, depth)}
 			mt["schema"] = g.anySchema(file)
 		}
-		if deep && !g.cfg.AvoidUnwalked && g.chance(4, "rbenc") {
+		if deep && !g.cfg.AvoidUnwalked && g.chance(4-2*b2i(g.cfg.NullEntries), "rbenc") {
 			mt["encoding"] = M{"p": M{"headers": M{"X-Enc": g.slot("header", file, depth)}}}
+			if g.cfg.NullEntries && g.chance(2, "encnull") {
+				// a null entry that sorts first: the walk has to go on past it
+				mt["encoding"].(M)["a"] = nil
+				g.feat["null-entry:encoding"]++
+			}
 		}
 		o["content"] = M{"application/json": mt}
 	case "response":
